@@ -12,13 +12,10 @@ package c09
 import (
 	"fmt"
 	"os"
-	"runtime/debug"
 	"sort"
 	"strings"
 	"sync"
-	"sync/atomic"
 	"testing"
-	"time"
 
 	"pgregory.net/rapid"
 	"verif/pbt"
@@ -433,6 +430,7 @@ func register(s *sut) {
 // ---- running a history ---------------------------------------------------------
 
 type runner struct {
+	w    *watch
 	s    *sut
 	in   *inst
 	m    *model
@@ -773,6 +771,7 @@ func (r *runner) exec(op Op, last bool) error {
 		for i := 0; i < cnt; i++ {
 			k := s.nSpecial + (r.key(op.K)+i)%nb
 			r.step++
+			r.w.prog.Add(1)
 			r.desc = fmt.Sprintf("%s #%d of %+v", name, i, op)
 			g := m.ht.grew
 			if err := r.doPut(name, k, r.val(i%5+1)); err != nil {
@@ -866,8 +865,6 @@ func (r *runner) exec(op Op, last bool) error {
 	return r.audit(n <= 24 || last || r.step%8 == 0 || m.ht.grew != grewBefore)
 }
 
-const caseTimeout = 10 * time.Second
-
 var (
 	statMu    sync.Mutex
 	statCases = map[string]int{}
@@ -876,37 +873,7 @@ var (
 	capMis    = map[string]int{}
 )
 
-func runCase(c Case) *pbt.Result {
-	s := suts[c.Type]
-	if s == nil {
-		return pbt.Fail("harness: unknown type %q", c.Type)
-	}
-	var res *pbt.Result
-	var progress atomic.Value
-	progress.Store("start")
-	returned, _ := pbt.WithTimeout(caseTimeout, func() {
-		defer func() {
-			if p := recover(); p != nil {
-				res = pbt.Fail("%s: panic at %v: %v\n%s", s.name, progress.Load(), p, trim(debug.Stack()))
-			}
-		}()
-		res = runHistory(s, c, &progress)
-	})
-	if !returned {
-		return pbt.Fail("%s: the call did not return within %v (self-deadlock or endless loop) at %v", s.name, caseTimeout, progress.Load())
-	}
-	return res
-}
-
-func trim(b []byte) string {
-	lines := strings.Split(string(b), "\n")
-	if len(lines) > 24 {
-		lines = lines[:24]
-	}
-	return strings.Join(lines, "\n")
-}
-
-func runHistory(s *sut, c Case, progress *atomic.Value) *pbt.Result {
+func runHistory(s *sut, c Case, w *watch) *pbt.Result {
 	cp := c
 	if !s.hasCtor {
 		cp.Custom = false
@@ -933,17 +900,17 @@ func runHistory(s *sut, c Case, progress *atomic.Value) *pbt.Result {
 	}
 	m := &model{max: 0, nullKey: s.nullKey, add: s.add, cmp: s.cmp, lab: lab, ht: newHtab(cap, thr, lf, s.hash),
 		nSpecial: s.nSpecial, negKeys: s.negKeys, extKeys: s.extKeys, emptyKeyI: s.emptyKey}
-	r := &runner{s: s, in: s.mk(&cp), m: m, desc: "fresh"}
+	r := &runner{s: s, in: s.mk(&cp), m: m, desc: "fresh", w: w}
 	if err := r.audit(true); err != nil {
 		return &pbt.Result{Err: err}
 	}
 	for i, op := range c.Ops {
-		progress.Store(fmt.Sprintf("op #%d %+v", i, op))
+		w.at("op #%d %+v", i, op)
 		if err := r.exec(op, i == len(c.Ops)-1); err != nil {
 			return &pbt.Result{Err: err}
 		}
 	}
-	progress.Store("final observers")
+	w.at("final observers")
 	r.step++
 	r.desc = "final observers"
 	if err := r.extended(""); err != nil {
